@@ -35,3 +35,48 @@ package results
 //@   ensures result == ltLess(lt[i], lt[j])
 //@   modifies nothing
 //@   props C19
+//@
+//@ // C19 (-json -include_text): joinLines(name, a, b) is the text of lines a..b of
+//@ // the file, each followed by a newline, as a line scanner yields them.
+//@ spec joinLines(name string, a int, b int) string
+//@ lemma joinLines-def: forall name string, a int :: joinLines(name, a, a - 1) == "" && (forall b int :: a <= b ==> joinLines(name, a, b) == joinLines(name, a, b - 1) + (fileLine(name, b) + "\n"))
+//@
+//@ func readFileLines
+//@   uses joinLines-def
+//@   requires startLine >= 1 && endLine >= 0
+//@   ensures result1 == nil && startLine <= endLine ==> result0 == joinLines(filename, startLine, endLine)
+//@   loop 1 invariant scanner != nil && scanFile(scanner) == filename && i == scanned[scanner] && 0 <= i && (i <= endLine || i < startLine) && lines == joinLines(filename, startLine, ite(i < startLine, startLine - 1, i))
+//@   props C19
+//@
+//@ func (JSONResult).Len
+//@   ensures result == len(jr)
+//@   modifies nothing
+//@   props C19
+//@ func (JSONResult).Swap
+//@   requires 0 <= i && i < len(jr) && 0 <= j && j < len(jr)
+//@   modifies elems(jr)
+//@   props C19
+//@ func (JSONResult).Less
+//@   requires 0 <= i && i < len(jr) && 0 <= j && j < len(jr) && jr[i] != nil && jr[j] != nil
+//@   ensures result == (jr[i].Filepath < jr[j].Filepath)
+//@   modifies nothing
+//@   props C19
+//@
+//@ func extern sort.Sort
+//@   trusted
+//@   ensures typeis(data, "JSONResult") ==> (forall k int :: 0 <= k && k < len(unbox(data, "JSONResult")) ==> (exists j int :: 0 <= j && j < len(unbox(data, "JSONResult")) && unbox(data, "JSONResult")[k] == old(unbox(data, "JSONResult")[j])))
+//@   modifies elems(unbox(data, "JSONResult")) when typeis(data, "JSONResult")
+//@
+//@ // every classification of a file carries, with -include_text, exactly the
+//@ // lines StartLine..EndLine of that file
+//@ spec okClass(c *Classification, file string, withText bool) bool = c != nil && (withText ==> c.Text == joinLines(file, c.StartLine, c.EndLine))
+//@ spec okFile(fc *FileClassifications, withText bool) bool = fc != nil && (forall j int :: 0 <= j && j < len(fc.Classifications) ==> okClass(fc.Classifications[j], fc.Filepath, withText))
+//@
+//@ func NewJSONResult
+//@   requires forall k int :: 0 <= k && k < len(licenses) ==> licenses[k] != nil && 1 <= licenses[k].StartLine && licenses[k].StartLine <= licenses[k].EndLine
+//@   ensures result1 == nil ==> (forall i int :: 0 <= i && i < len(result0) ==> okFile(result0[i], includeText))
+//@   loop 1 invariant fMap != nil && fresh(fMap) && (forall f string :: (f in fMap) ==> okFile(fMap[f], includeText) && fresh(fMap[f]) && fMap[f].Filepath == f)
+//@   loop 1 invariant forall f string, g string :: (f in fMap) && (g in fMap) && f != g ==> ref(fMap[f].Classifications) != ref(fMap[g].Classifications) || ref(fMap[f].Classifications) == 0
+//@   loop 1 invariant forall f string :: (f in fMap) ==> fMap[f].Classifications == nil || fresh(fMap[f].Classifications)
+//@   loop 2 invariant fMap != nil && (forall f string :: (f in fMap) ==> okFile(fMap[f], includeText)) && (jr == nil || fresh(jr)) && (forall i int :: 0 <= i && i < len(jr) ==> okFile(jr[i], includeText))
+//@   props C19
